@@ -589,6 +589,8 @@ func (ex *Exec) postconditions() {
 		o := &Obligation{Name: fmt.Sprintf("%s/post/%s", g.curFunc, e.Label), Func: g.curFunc, Kind: "post", Label: e.Label, Goal: goal, PC: "true",
 			NFacts: len(g.facts), Src: e.Src, Where: fmt.Sprintf("%s:%d", e.File, e.Line), g: g, Expect: "unsat", Props: con.Props}
 		g.obls = append(g.obls, o)
+		// a proved postcondition may be used for the ones listed after it
+		g.addFact(goal)
 	}
 	// propagates: error of call k non-nil (and call not re-executed) ==> function's error result non-nil
 	for _, pr := range con.Propag {
